@@ -103,8 +103,9 @@ var grammars = []grammar{
 }
 
 type op struct {
-	kind    int // 0 compile, 1 run shared, 2 run own (last compiled by this client), 3 compile and run a machine that nobody keeps
-	gcAt    int // >0: at the run's gcAt-th data-tree callback the client forces a garbage collection and lets the finalizers run
+	kind    int  // 0 compile, 1 run shared, 2 run own (last compiled by this client), 3 compile and run a machine that nobody keeps
+	debug   bool // run with SetDebug(true)
+	gcAt    int  // >0: at the run's gcAt-th data-tree callback the client forces a garbage collection and lets the finalizers run
 	gram    int
 	expr    string
 	mapMode int // 0 nil, 1 ok, 2 fails at 2nd call, 3 ok but binds the prefixes to other namespaces
@@ -274,7 +275,16 @@ func runOp(m *xpath.Machine, tree *faulttree.Tree, o op, tag string, yield bool)
 		return outcome{text: "NO-MACHINE"}
 	}
 	cur := tree.Nodes[o.ctx%len(tree.Nodes)]
-	res := xpath.NewCtxFromCurrent(context.Background(), m, cur.Entry(r)).Run()
+	var res *xpath.Result
+	if o.debug {
+		// a run with the debug trace switched on (the trace itself is not compared; result, error and request trace are)
+		res = xpath.NewCtxFromCurrent(context.Background(), m, cur.Entry(r)).SetDebug(true).Run()
+		if res != nil {
+			_ = res.GetDebugOutput()
+		}
+	} else {
+		res = xpath.NewCtxFromCurrent(context.Background(), m, cur.Entry(r)).Run()
+	}
 	if res == nil {
 		return outcome{text: "NIL-RESULT"}
 	}
@@ -565,6 +575,7 @@ func (w world) RunCase(t *tape.Tape, st *super.Stats) *super.Violation {
 				if t.Rare(8) {
 					o.gcAt = 1 + t.Draw(4)
 				}
+				o.debug = t.Rare(6)
 			case 2:
 				o = op{kind: 2, ctx: t.Draw(len(tree.Nodes))}
 				if t.Rare(3) {
@@ -573,6 +584,7 @@ func (w world) RunCase(t *tape.Tape, st *super.Stats) *super.Violation {
 				if t.Rare(8) {
 					o.gcAt = 1 + t.Draw(4)
 				}
+				o.debug = t.Rare(6)
 			}
 			progs[c] = append(progs[c], o)
 		}
